@@ -25,8 +25,8 @@ Record vobj := {
 Inductive oop :=
 | QCreate (v : nat) (c : Z) (hint : Z)      (* slot v = new ConcurrentVector(hint, constructor c) *)
 | QEnsure (v : nat) (i : Z)                 (* slot v ->ensure(i) / reserve / ... : grow to hold index i *)
-| QMoveCtor (d s : nat)                     (* slot d = new ConcurrentVector(std::move(slot s)) *)
-| QMoveAssign (d s : nat)                   (* *slot d = std::move(slot s) *)
+| QMoveCtor (d s : nat)                     (* slot d = new ConcurrentVector(std::move(oslot s)) *)
+| QMoveAssign (d s : nat)                   (* *slot d = std::move(oslot s) *)
 | QSwap (a b : nat)                         (* slot a ->swap(slot b) *)
 | QDestroy (v : nat).                       (* delete slot v *)
 
@@ -45,7 +45,7 @@ Fixpoint round_up (fuel : nat) (bs hint : Z) : Z :=
   match fuel with O => bs | S f => if bs <? hint then round_up f (2 * bs) hint else bs end.
 Definition block_size_of (s : ost) (o : vobj) : Z := if sbs s =? 0 then obs o else sbs s.
 
-Definition slot (s : ost) (v : nat) : option vobj := match nth_error (objs s) v with Some x => x | None => None end.
+Definition oslot (s : ost) (v : nat) : option vobj := match nth_error (objs s) v with Some x => x | None => None end.
 Definition set_slot (s : ost) (v : nat) (x : option vobj) : ost :=
   {| sbs := sbs s; objs := set_nth v x (objs s); built := built s; killed := killed s |}.
 
@@ -65,7 +65,7 @@ Definition ostep (s : ost) (o : oop) : ost :=
     | _ => s
     end
   | QEnsure v i =>
-    match slot s v with
+    match oslot s v with
     | Some ob =>
       let bs := block_size_of s ob in
       let expect := ensure_expect (dyn_block_index i (Z.log2 bs)) in
@@ -80,7 +80,7 @@ Definition ostep (s : ost) (o : oop) : ost :=
     | None => s
     end
   | QMoveCtor d sv =>
-    match nth_error (objs s) d, slot s sv with
+    match nth_error (objs s) d, oslot s sv with
     | Some None, Some so =>
       if Nat.eqb d sv then s else
       let a := move_ctor_delegate_arg (octor so) in
@@ -91,21 +91,21 @@ Definition ostep (s : ost) (o : oop) : ost :=
     | _, _ => s
     end
   | QMoveAssign d sv =>
-    match slot s d, slot s sv with
+    match oslot s d, oslot s sv with
     | Some od, Some so =>
       if Nat.eqb d sv || negb (move_assign_swaps =? 1) then s else
       let (nd, ns) := swap_objs od so in set_slot (set_slot s d (Some nd)) sv (Some ns)
     | _, _ => s
     end
   | QSwap a b =>
-    match slot s a, slot s b with
+    match oslot s a, oslot s b with
     | Some oa, Some ob =>
       if Nat.eqb a b then s else
       let (na, nb) := swap_objs oa ob in set_slot (set_slot s a (Some na)) b (Some nb)
     | _, _ => s
     end
   | QDestroy v =>
-    match slot s v with
+    match oslot s v with
     | Some ob => {| sbs := sbs s; objs := set_nth v None (objs s); built := built s; killed := bump_all (killed s) (oblocks ob) |}
     | None => s
     end
